@@ -69,6 +69,7 @@ func storedName(m modVer) string {
 
 func writeDir(dir string, mods []modVer) {
 	os.RemoveAll(dir)
+	os.RemoveAll(dir + ".targets")
 	os.MkdirAll(dir, 0o777)
 	// something that is not a module
 	os.WriteFile(filepath.Join(dir, "README"), []byte("not a module\n"), 0o666)
@@ -81,6 +82,17 @@ func writeDir(dir string, mods []modVer) {
 			for _, f := range m.Files {
 				p := filepath.Join(name, f)
 				os.MkdirAll(filepath.Dir(p), 0o777)
+				if filepath.Base(f) == "ln.go" {
+					// stored as a symbolic link to a file kept outside the served directory
+					t := filepath.Join(dir+".targets", storedName(m), "ln.go")
+					os.MkdirAll(filepath.Dir(t), 0o777)
+					os.WriteFile(t, []byte(fileData(m, f)), 0o666)
+					os.Remove(p)
+					if err := os.Symlink(t, p); err != nil {
+						kit.Harness("symlink: %v", err)
+					}
+					continue
+				}
 				os.WriteFile(p, []byte(fileData(m, f)), 0o666)
 			}
 			continue
@@ -518,7 +530,7 @@ func concScenarios(th bool) []scenario {
 func allModVers(th bool) []modVer {
 	paths := []string{"a.com/m", "a.com/Mixed/Case", "a.com/m/v2", "a.com/vault"}
 	verss := []string{"v1.0.0", "v1.2.3-pre.1", "v2.0.0+incompatible", "v2.0.0", "v0.0.0-20200101000000-abcdef123456"}
-	files := []string{"go.mod", "x.go", "sub/y.go", ".hidden", "sub/.h", "sub/.d/z.go", ".d/w.go"}
+	files := []string{"go.mod", "x.go", "sub/y.go", ".hidden", "sub/.h", "sub/.d/z.go", ".d/w.go", "sub/ln.go"}
 	var out []modVer
 	for _, p := range paths {
 		for _, v := range verss {
@@ -640,7 +652,7 @@ func main() {
 		}
 	}
 	layouts := []string{"txt", "txtar", "dir"}
-	fsets := [][]string{{"go.mod", "x.go"}, {"go.mod", ".hidden", "sub/.h", "sub/y.go", "sub/.d/z.go", ".d/w.go"}, nil}
+	fsets := [][]string{{"go.mod", "x.go"}, {"go.mod", ".hidden", "sub/.h", "sub/y.go", "sub/.d/z.go", ".d/w.go", "sub/ln.go"}, nil}
 	for i, a := range pvs {
 		for j, b := range pvs {
 			if j <= i {
